@@ -15,7 +15,7 @@ for ((b=0;b<P;b++)); do
   ( for ((i=b;i<${#ids[@]};i+=P)); do tools/run_seeded.sh ${ids[$i]}; done > "$L/seeded.$b.log" 2>&1 ) &
 done
 wait
-for id in S30 S37 S62; do
+for id in S30 S37 S62 S72; do
   echo "$id C14 $(tools/try_seeded.sh "$PWD/seeded/$id/patch.diff" C14 2>&1 | grep -v WARNING | tail -1 | cut -c1-200)" >> "$L/seeded.cli.log"
 done
 cat mutants/MAP mutants/own/MAP > "$L/mut.map"
